@@ -7,9 +7,13 @@ tie        : harness/c14_mixlinear.c includes src/mixer.c privately and interpos
              state with its state after the full mix); sampled windows, kernel calls (spy wrappers on
              all 44 kernels), volume-stage values, downmix words and whole voice ticks are replayed on
              the native Lean driver drv_c14; a twin-context run ties the player's volume / pan tails.
-search     : direct oracles on whole renders of corpus modules: master volume 0 / all channels muted
-             => digital silence; full mix vs sum of soloed channel groups; separation 0 => L == R and
-             m vs -m => L/R exchanged.
+search     : direct oracles on whole renders of corpus modules and of synthetic modules written from the
+             seed (tools/gen_c14_synth.py: 1..4-frame loops, sub-tick one-shots, retriggers, pans 0/240/255):
+             master volume 0 / all channels muted => digital silence; full mix vs sum of soloed channel
+             groups; separation 0 => L == R and m vs -m => L/R exchanged (exact +-100 included).
+regression : it_note_delay_nna.it with master volume 0 (F6, fixed 24b5355, signature silence:master_vol:nna);
+             NP2.Multica at 4000 Hz with XMP_FLAGS_A500 (Paula kernel read past the sample end, fixed
+             15834b2, signature harness-abort:heap-buffer-overflow@libxmp_mix_stereoout_mono_a500).
 """
 import os
 import re
@@ -34,7 +38,8 @@ MANIFEST = dict(
          "twin contexts) and a direct oracle searches whole renders for failing inputs.",
     note="Finding F6 (background/NNA voices scaled by smix_vol instead of master_vol) was repaired in /repo (24b5355); the model follows "
          "whichever rule the working tree has (generated flag nnaRootRule) and the oracle keeps it_note_delay_nna.it with master volume 0 as "
-         "a regression case (signature silence:master_vol:nna). "
+         "a regression case (signature silence:master_vol:nna). This check also found the Paula-kernel read past the sample end (fixed "
+         "15834b2); NP2.Multica at 4000 Hz in A500 mode stays in every run. "
          "Modelled-not-verified: that each kernel's sample sequence (interpolation, filter, Paula BLEP) is a function of the voice alone is "
          "established by the exact per-tick solo decomposition on the cases run, not by a theorem about mix_all.c; voice allocation / "
          "eviction (virtual.c alloc_voice/free_voice), effect processing and envelopes before the volume tail, the sample position "
@@ -300,6 +305,8 @@ def replay(ck, rp):
         for u in r:
             print("UNPROVED %s: %s" % (u.get("name"), u.get("detail", "")[:1500]))
         return 1
+    if "c14-synth" in r["module"] and not os.path.exists(r["module"]):
+        gen_c14_synth.generate(os.path.dirname(r["module"]), int(r["seed"]), 8)      # synthetic modules are a function of the seed
     rc, out, err = vlib.run_exe(exe, [r["mode"], str(r["seed"]), str(r["nframes"]), r["module"]], timeout=1500,
                                 env=r.get("env") or None)
     text = out.decode("latin-1")
